@@ -30,9 +30,13 @@ AXES = ["following", "preceding", "child", "descendant", "descendant-or-self", "
 
 
 # ------------------------------------------------------------------ documents
-def gendoc(rng, depth=0):
+def gendoc(rng, depth=0, dflt=None):
     name = rng.choice(["a", "b", "c"])
     pfx = rng.choice(["", "", "p:"]) if depth else ""
+    if depth == 0:
+        # a third of the documents declare a default namespace on the root (so that context nodes are namespaced
+        # without a prefix); inside those some elements undeclare it again
+        dflt = rng.choice([None, None, "d"])
     attrs = ""
     for an in ["x", "y"]:
         if rng.random() < 0.4:
@@ -40,12 +44,17 @@ def gendoc(rng, depth=0):
     if rng.random() < 0.15:
         attrs += ' p:z="1"'
     decl = ' xmlns:p="u"' if depth == 0 else ""
+    if depth == 0 and dflt:
+        decl += ' xmlns="%s"' % dflt
+    elif dflt and not pfx and rng.random() < 0.15:
+        decl += ' xmlns=""'
+        dflt = None
     out = "<%s%s%s%s>" % (pfx, name, decl, attrs)
     if depth < 3:
         for _ in range(rng.randrange(2, 5) if depth == 0 else rng.randrange(0, 4)):
             r = rng.random()
             if r < 0.55:
-                out += gendoc(rng, depth + 1)
+                out += gendoc(rng, depth + 1, dflt)
             elif r < 0.8:
                 out += rng.choice(["t", "tt u"])
             elif r < 0.9:
@@ -268,7 +277,8 @@ def lxml_ids(res, nodes):
 def gen_case(rng):
     xml = gendoc(rng)
     return {"xml": xml, "ctx": 0 if rng.random() < 0.5 else rng.randrange(0, 1000), "expr": genexpr(rng) if rng.random() < 0.8 else gen_safe(rng),
-            "ns": [["p", "u"]] if rng.random() < 0.85 else rng.choice([None, [["p", "u"], ["", "d"]], [["q", "u"]]])}
+            "ns": [["p", "u"]] if rng.random() < 0.6 else rng.choice([None, None, [["p", "u"], ["", "d"]], [["p", "u"], ["", "d"]], [["q", "u"]], [], [],
+                                                                 [["p", "u"], ["", "u"]]])}
 
 
 def gen_safe(rng):
@@ -358,7 +368,8 @@ def css_cases(run: Run, stream, n):
 
     sels = ["a", "a b", "a > b", "a, b", "*", "a[x]", 'a[x="1"]', "a b c", "a > b > c", "b, c > a", "c[y]", 'b[y="ab"]']
     for _ in range(n):
-        xml = gendoc(run.rng).replace("p:", "").replace(' xmlns="u"', "")
+        # no namespaces at all in this stream: cssselect's translation has no notion of delb's default namespace
+        xml = gendoc(run.rng).replace("p:", "").replace(' xmlns="u"', "").replace(' xmlns="d"', "").replace(' xmlns=""', "")
         sel = run.rng.choice(sels)
         case = {"xml": xml, "css": sel}
         run.case(stream, case, True)
